@@ -382,12 +382,34 @@ class Normalizer:
     def _hoist_nested_helper_call(self, s, cls_name, taken):
         """``x = f(helper(a)) - 1``  ->  ``__h = helper(a); x = f(__h) - 1`` when the helper is a statement helper, it is the
         only call of that kind in the statement and everything else in the expression is side-effect free."""
+        if isinstance(s, ast.For):
+            # the iterable of a for statement is evaluated once, before the loop
+            holder = ast.Expr(value=s.iter)
+            ast.copy_location(holder, s)
+            r = self._hoist_nested_helper_call(holder, cls_name, taken)
+            if r is None:
+                h0, _ = self._resolve_helper(s.iter, cls_name) if isinstance(s.iter, ast.Call) else (None, None)
+                if h0 is not None and self._helper_kind(h0) == "stmt":
+                    k = 1
+                    while f"__h{k}" in taken:
+                        k += 1
+                    tmp = f"__h{k}"
+                    taken.add(tmp)
+                    pre = ast.Assign(targets=[ast.Name(id=tmp, ctx=ast.Store())], value=s.iter)
+                    ast.copy_location(pre, s)
+                    ast.fix_missing_locations(pre)
+                    s.iter = ast.copy_location(ast.Name(id=tmp, ctx=ast.Load()), s.iter)
+                    return [pre, s]
+                return None
+            s.iter = r[-1].value
+            return r[:-1] + [s]
         if not isinstance(s, (ast.Assign, ast.Return, ast.Expr, ast.AugAssign)) or s.value is None:
             return None
-        if isinstance(s.value, ast.Call) and self._resolve_helper(s.value, cls_name)[0] is not None:
-            return None  # already a whole right-hand side
+        whole = isinstance(s.value, ast.Call) and self._resolve_helper(s.value, cls_name)[0] is not None
         cands = []
         for x in ast.walk(s.value):
+            if whole and x is s.value:
+                continue  # the statement is itself a helper call: only helper calls among its arguments are hoisted
             if isinstance(x, ast.Call):
                 h, _ = self._resolve_helper(x, cls_name)
                 if h is not None and self._helper_kind(h) == "stmt":
@@ -395,14 +417,60 @@ class Normalizer:
         if len(cands) != 1:
             return None
         call = cands[0]
-        # the rest of the expression must be pure, and the call may not sit under a short-circuit or conditional
+        # the call may not sit under a short-circuit or conditional, and whatever the expression evaluates *before* the
+        # call must be pure (calls that enclose it are made after it; operands to its right are evaluated after it)
         for x in ast.walk(s.value):
             if isinstance(x, (ast.BoolOp, ast.IfExp, ast.Lambda, ast.ListComp, ast.SetComp, ast.DictComp, ast.GeneratorExp)) and any(y is call for y in ast.walk(x)):
                 return None
-            if isinstance(x, ast.Call) and x is not call:
-                nm = x.func.attr if isinstance(x.func, ast.Attribute) else getattr(x.func, "id", "")
-                if nm not in PURE_CALLS:
-                    return None
+
+        def impure(e):
+            for x in ast.walk(e):
+                if isinstance(x, ast.Call):
+                    nm = x.func.attr if isinstance(x.func, ast.Attribute) else getattr(x.func, "id", "")
+                    if nm not in PURE_CALLS:
+                        return True
+                if isinstance(x, (ast.NamedExpr, ast.Await, ast.Yield, ast.YieldFrom)):
+                    return True
+            return False
+
+        def before(node):
+            """False if something impure is evaluated before ``call`` inside ``node`` (which contains ``call``)."""
+            if node is call:
+                return True
+            kids = []
+            if isinstance(node, ast.Call):
+                kids = [node.func] + list(node.args) + [k.value for k in node.keywords]
+            elif isinstance(node, ast.BinOp):
+                kids = [node.left, node.right]
+            elif isinstance(node, ast.Compare):
+                kids = [node.left] + list(node.comparators)
+            elif isinstance(node, (ast.Tuple, ast.List, ast.Set)):
+                kids = list(node.elts)
+            elif isinstance(node, ast.Subscript):
+                kids = [node.value, node.slice]
+            elif isinstance(node, ast.Attribute):
+                kids = [node.value]
+            elif isinstance(node, ast.UnaryOp):
+                kids = [node.operand]
+            elif isinstance(node, ast.JoinedStr):
+                kids = list(node.values)
+            elif isinstance(node, ast.FormattedValue):
+                kids = [node.value]
+            elif isinstance(node, ast.Starred):
+                kids = [node.value]
+            else:
+                return False  # a construct whose evaluation order is not modelled
+            for k_ in kids:
+                if any(y is call for y in ast.walk(k_)):
+                    return before(k_)
+                if impure(k_):
+                    return False
+            return False
+
+        if not before(s.value):
+            return None
+        if isinstance(s, ast.AugAssign) and not isinstance(s.target, ast.Name):
+            return None  # the target's sub-expressions are evaluated first
         k = 1
         while f"__h{k}" in taken:
             k += 1
@@ -707,6 +775,86 @@ class Normalizer:
                 changed = True
                 break
 
+    _REF_TREES = {}
+
+    def _reference_walrus_names(self, func):
+        """Names bound by assignment expressions in the reference version of ``func`` (those are vocabulary the rules
+        know; only assignment expressions that came later are rewritten)."""
+        rel = self.rel.split("/")[-1]
+        if rel not in Normalizer._REF_TREES:
+            path = os.path.join(_HERE, "reference", "src", "numbers_parser", rel + ".txt")
+            try:
+                with open(path, encoding="utf-8") as fh:
+                    Normalizer._REF_TREES[rel] = ast.parse(fh.read())
+            except OSError:
+                Normalizer._REF_TREES[rel] = None
+        t = Normalizer._REF_TREES[rel]
+        if t is None:
+            return {n.target.id for n in ast.walk(func) if isinstance(n, ast.NamedExpr) and isinstance(n.target, ast.Name)}  # no reference: touch nothing
+        q = _qual(func, self.par)
+        par = _parents(t)
+        for n in ast.walk(t):
+            if isinstance(n, ast.FunctionDef) and n.name == func.name and _qual(n, par) == q:
+                return {x.target.id for x in ast.walk(n) if isinstance(x, ast.NamedExpr) and isinstance(x.target, ast.Name)}
+        return set()
+
+    # -------------------------------------------------------------- assignment expressions
+    def _dewalrus(self, func, pinned_locals):
+        """``if (x := E) is not None:`` with a *new* name x  ->  ``x = E`` followed by ``if x is not None:``.  Only where
+        the assignment expression is the first thing the test evaluates (the test itself, the left operand of its
+        comparison, or that of the first operand of an and/or), so the value is computed at the same moment."""
+        ref_walrus = self._reference_walrus_names(func)
+
+        def first(e):
+            """The NamedExpr evaluated first and unconditionally by ``e`` together with a setter replacing it, or None."""
+            if isinstance(e, ast.NamedExpr):
+                return e, None
+            if isinstance(e, ast.Compare) and isinstance(e.left, ast.NamedExpr):
+                return e.left, (e, "left", None)
+            if isinstance(e, ast.UnaryOp) and isinstance(e.op, ast.Not):
+                r = first(e.operand)
+                if r is not None:
+                    return r if r[1] is not None else (r[0], (e, "operand", None))
+            if isinstance(e, ast.BoolOp) and e.values:
+                r = first(e.values[0])
+                if r is not None:
+                    return r if r[1] is not None else (r[0], (e, "values", 0))
+            return None
+
+        def block(stmts):
+            out = []
+            for st in stmts:
+                for fld in ("body", "orelse", "finalbody"):
+                    blk = getattr(st, fld, None)
+                    if isinstance(blk, list) and blk and isinstance(blk[0], ast.stmt) and not isinstance(st, (ast.FunctionDef, ast.ClassDef)):
+                        setattr(st, fld, block(blk))
+                for h in getattr(st, "handlers", []) or []:
+                    h.body = block(h.body)
+                if isinstance(st, ast.If):
+                    r = first(st.test)
+                    n_walrus = sum(isinstance(x, ast.NamedExpr) for x in ast.walk(st.test))
+                    if r is not None and n_walrus == 1 and isinstance(r[0].target, ast.Name) and r[0].target.id not in ref_walrus:
+                        ne, where = r
+                        name = ast.Name(id=ne.target.id, ctx=ast.Load())
+                        ast.copy_location(name, ne)
+                        if where is None:
+                            st.test = name
+                        else:
+                            holder, fld, idx = where
+                            if idx is None:
+                                setattr(holder, fld, name)
+                            else:
+                                getattr(holder, fld)[idx] = name
+                        pre = ast.Assign(targets=[ast.Name(id=ne.target.id, ctx=ast.Store())], value=ne.value)
+                        ast.copy_location(pre, st)
+                        ast.copy_location(pre.targets[0], st)
+                        self.report["aliases"].append(f"{func.name}.{ne.target.id} (assignment expression)")
+                        out.append(pre)
+                out.append(st)
+            return out
+
+        func.body = block(func.body)
+
     # -------------------------------------------------------------- table-driven loops
     def _module_literal(self, name):
         """AST of a module-level ``name = <tuple/list display>`` bound exactly once and not pinned, else None."""
@@ -899,6 +1047,8 @@ class Normalizer:
             n_helpers_before = len(self.report["helpers"])
             self._fold_constants(n)
             if n.name != "<lambda>" and _qual(n, self.par) in self.pinned_funcs:
+                if any(isinstance(x, ast.NamedExpr) for x in ast.walk(n)):
+                    self._dewalrus(n, set(self.pinned_funcs.get(_qual(n, self.par), [])))
                 self._unroll_table_loops(n, set(self.pinned_funcs.get(_qual(n, self.par), [])))
             if self.helpers or self.foreign:
                 taken = _local_names(n)
